@@ -229,6 +229,9 @@ ENVS = [dict(x=Fraction(2, 3), y=Fraction(-5, 4), z=Fraction(7), f=lambda t: 3 *
         dict(x=Fraction(-3), y=Fraction(1, 2), z=Fraction(-1, 9), f=lambda t: t * t - 2, a=[Fraction(1, 3), Fraction(4), Fraction(-6)]),
         dict(x=Fraction(5, 7), y=Fraction(3), z=Fraction(2, 11), f=lambda t: 1 - t, a=[Fraction(0), Fraction(1), Fraction(2)])]
 
+for _i, _env in enumerate(ENVS):
+    _env.update(hh=Fraction(3 + _i, 5), kk=Fraction(-7, 2 + _i), mm=Fraction(4 * _i - 3, 7))
+
 
 # ----------------------------------------------------------------------------- normal-form predicates (from the property text)
 def subnodes(e):
@@ -562,12 +565,60 @@ def b_expand(tier):
     return b
 
 
+def b_histories(tier):
+    """The same checks after earlier calls of the same public functions with other options (parameters=...), on one process state."""
+    import pymbolic.primitives as p
+    from pymbolic.mapper.distributor import distribute
+    from pymbolic.mapper.collector import TermCollector
+    b = BoundedRun("expand-histories", rule="for polynomials over variables used by no other check: distribute(e, parameters=P) (P = {h}, {k}, {h,k}) then distribute(e); "
+                   "TermCollector(P)(s) then TermCollector()(s) on the expanded form s; and the reverse orders; every result: same rational function, same exact values; every parameter-free "
+                   "result of a polynomial: expanded normal form with like terms merged", bound="~150 polynomials x 3 parameter sets x 2 orders",
+                   functions=["distribute", "DistributeMapper", "TermCollector.split_term", "TermCollector.map_sum"])
+    h, k, m = p.Variable("hh"), p.Variable("kk"), p.Variable("mm")
+    pool = []
+    lin = [p.Sum((h, k)), p.Sum((h, 1)), p.Sum((k, m, 2)), p.Sum((p.Product((h, k)), m)), p.Sum((p.Product((2, h)), p.Product((-1, k))))]
+    for u, v in itertools.product(lin, repeat=2):
+        pool += [p.Product((u, v)), p.Sum((p.Product((u, v)), p.Product((h, m)))), p.Product((h, u, v))]
+    for u in lin:
+        pool += [p.Power(u, 2), p.Power(u, 3), p.Product((u, p.Power(u, 2))), p.Sum((p.Product((h, m)), p.Product((k, m)), p.Product((m, h)))),
+                 p.Sum((p.Product((h, p.Power(m, 2))), p.Product((k, p.Power(m, 2))), p.Product((3, p.Power(m, 2))), u))]
+    psets = [{h}, {k}, {h, k}]
+    if tier != "thorough":
+        pool = pool[::2]
+    for i, e in enumerate(pool):
+        P = psets[i % 3]
+        order = ("params-first", "plain-first")[(i // 3) % 2]
+        calls = [("params", lambda: distribute(e, parameters=set(P))), ("plain", lambda: distribute(e))]
+        if order == "plain-first":
+            calls.reverse()
+        expanded = {}
+        for which, f in calls + [("collect-params", lambda: TermCollector(set(P))(expanded["e"])), ("collect-plain", lambda: TermCollector()(expanded["e"])),
+                                 ("plain-again", lambda: distribute(e))]:
+            if which.startswith("collect") and "e" not in expanded:
+                continue            # the term collector's fragment is a sum of multiplicative terms: it is applied to the expanded form
+            r = outcome.run(f)
+            if which == "plain" and r[0] == "val":
+                expanded["e"] = r[1]
+            b.case(("hist", i, order, which), sample=dict(expr=repr(e), parameters=sorted(map(str, P)), order=order, call=which))
+            case = dict(kind="history", index=i, tier=tier)
+            if r[0] != "val":
+                b.fail(Failure("expand-histories", f"what=raised call={which} order={order} expr={e!r}", case, expected="an expression", actual=outcome.describe(r)[:200],
+                               functions=["distribute", "TermCollector"]))
+                continue
+            if check_value(b, "expand-histories", e, r, ["distribute", "TermCollector"]) and which in ("plain", "plain-again"):
+                v = expand_violation(r[1])
+                if v:
+                    b.fail(Failure("expand-histories", f"what=expand-not-normal-after-history call={which} order={order} parameters={sorted(map(str, P))} expr={e!r}", case,
+                                   expected="expanded normal form", actual=v[:200], functions=["distribute", "TermCollector.split_term"]))
+    return b
+
+
 def _expand_cause(e):
     return ""
 
 
 def bounded(tier, seed, procs):
-    return [b_flatten(tier), b_fold(tier), b_collect(tier), b_expand(tier)]
+    return [b_flatten(tier), b_fold(tier), b_collect(tier), b_expand(tier), b_histories(tier)]
 
 
 def proof_jobs(tier):
@@ -581,6 +632,10 @@ def proof_jobs(tier):
 
 def replay(case):
     import pymbolic.primitives as p
+    if case.get("kind") == "history":
+        run = b_histories(case.get("tier", "quick"))
+        hits = [f for f in run.failures if f.case.get("index") == case["index"]]
+        return dict(outcome="; ".join(f.signature[:200] for f in hits) or "no failure in the history run") if hits else None
     ns = {n: getattr(p, n) for n in dir(p)}
     e = eval(case["expr"], ns)
     from pymbolic.mapper.flattener import flatten
